@@ -27,6 +27,51 @@ fn dump_mode(bytes: &[u8], mode: Mode) -> Result<Dump, String> {
     engine::dump_live(&mut cf)
 }
 
+/// The same bytes through the path-based entrances (`cfb::open`, `OpenOptions::open` /
+/// `open_rw` with and without `strict()`): one image in twelve (a pure function of the
+/// bytes) is written to a scratch file and must get the verdict and the content that
+/// `open_with` gave.  `strict_mem` / `perm_mem` are the in-memory results.
+fn path_cross_check(ctx: &Ctx, bytes: &[u8], strict_mem: &Result<Dump, String>, perm_mem: &Result<Dump, String>, rep: &mut Report) -> Result<(), (String, String)> {
+    let h = fnv64(bytes);
+    if (h >> 20) % 12 != 0 || bytes.len() > (1 << 20) {
+        return Ok(());
+    }
+    let dir = format!("{}.files", ctx.out);
+    let _ = std::fs::create_dir_all(&dir);
+    let path = format!("{dir}/{h:016x}.cfb");
+    if std::fs::write(&path, bytes).is_err() {
+        rep.count("path_based.scratch_file_unavailable");
+        return Ok(());
+    }
+    let res = (|| {
+        for (mode, mem) in [(Mode::Strict, strict_mem), (Mode::Permissive, perm_mem)] {
+            let variant = (h >> 28) % 3;
+            let (how, opened): (&str, std::io::Result<cfb::CompoundFile<std::fs::File>>) = match (mode, variant) {
+                (Mode::Strict, 0) => ("OpenOptions::new().strict().open(path)", cfb::OpenOptions::new().strict().open(&path)),
+                (Mode::Strict, 1) => ("OpenOptions::new().strict().open_rw(path)", cfb::OpenOptions::new().strict().open_rw(&path)),
+                (Mode::Strict, _) => ("OpenOptions::new().max_buffer_size(4096).strict().open(path)", cfb::OpenOptions::new().max_buffer_size(4096).strict().open(&path)),
+                (Mode::Permissive, 0) => ("cfb::open(path)", cfb::open(&path)),
+                (Mode::Permissive, 1) => ("cfb::open_rw(path)", cfb::open_rw(&path)),
+                (Mode::Permissive, _) => ("OpenOptions::new().open(path)", cfb::OpenOptions::new().open(&path)),
+            };
+            let via_path: Result<Dump, String> = match opened {
+                Ok(mut cf) => engine::dump_live(&mut cf),
+                Err(e) => Err(e.to_string()),
+            };
+            match (mem, &via_path) {
+                (Ok(a), Ok(b)) => dumps_equal(a, b).map_err(|w| (format!("path-based open | {:?} | content differs from open_with on the same bytes", mode), format!("{how}: {w}")))?,
+                (Err(_), Err(_)) => {}
+                (Ok(_), Err(e)) => return Err((format!("path-based open | {:?} | rejects what open_with accepts", mode), format!("{how}: {e}"))),
+                (Err(e), Ok(_)) => return Err((format!("path-based open | {:?} | accepts what open_with rejects", mode), format!("{how} accepted the file; open_with on the same bytes: {e}"))),
+            }
+            rep.count(&format!("path_based.{:?}.{}", mode, if via_path.is_ok() { "accepted" } else { "rejected" }));
+        }
+        Ok(())
+    })();
+    let _ = std::fs::remove_file(&path);
+    res
+}
+
 fn dumps_equal(a: &Dump, b: &Dump) -> Result<(), String> {
     // lengths reported for storages/root are physical; everything else must be identical
     if a.len() != b.len() {
@@ -413,10 +458,13 @@ pub fn run_c16(ctx: &Ctx, rep: &mut Report) {
                 make_input(&mut rng, &hostile_pool, &seeds, Emphasis::Any, rep)
             };
             let r = guard::catch(|| -> Result<bool, (String, String)> {
-                match dump_mode(&bytes, Mode::Strict) {
+                let strict = dump_mode(&bytes, Mode::Strict);
+                let perm = dump_mode(&bytes, Mode::Permissive);
+                path_cross_check(ctx, &bytes, &strict, &perm, rep)?;
+                match strict {
                     Err(_) => Ok(false),
                     Ok(ds) => {
-                        let dp = dump_mode(&bytes, Mode::Permissive).map_err(|e| ("part A | strict accepts, permissive rejects".to_string(), format!("permissive: {e}")))?;
+                        let dp = perm.map_err(|e| ("part A | strict accepts, permissive rejects".to_string(), format!("permissive: {e}")))?;
                         dumps_equal(&ds, &dp).map_err(|w| ("part A | strict and permissive expose different content".to_string(), w))?;
                         Ok(true)
                     }
@@ -473,13 +521,16 @@ pub fn run_c16(ctx: &Ctx, rep: &mut Report) {
         let label = names.join("+");
         let r = guard::catch(|| -> Result<(), (String, String)> {
             let what = format!("{:?} on a {} base (v{})", applied, base.origin, base.img.version);
-            match dump_mode(&bytes, Mode::Permissive) {
+            let perm = dump_mode(&bytes, Mode::Permissive);
+            let strict = dump_mode(&bytes, Mode::Strict);
+            match &perm {
                 Err(e) => return Err((format!("part B | {} | permissive rejects", if combo { format!("combo {label}") } else { label.clone() }), format!("{what}: {e}"))),
-                Ok(d) => dumps_equal(reference, &d).map_err(|w| (format!("part B | {} | permissive content differs", if combo { format!("combo {label}") } else { label.clone() }), format!("{what}: {w}")))?,
+                Ok(d) => dumps_equal(reference, d).map_err(|w| (format!("part B | {} | permissive content differs", if combo { format!("combo {label}") } else { label.clone() }), format!("{what}: {w}")))?,
             }
-            if dump_mode(&bytes, Mode::Strict).is_ok() {
+            if strict.is_ok() {
                 return Err((format!("part B | {} | strict accepts", if combo { format!("combo {label}") } else { label.clone() }), what));
             }
+            path_cross_check(ctx, &bytes, &strict, &perm, rep)?;
             Ok(())
         });
         match r {
@@ -498,4 +549,5 @@ pub fn run_c16(ctx: &Ctx, rep: &mut Report) {
             rep.sample(J::obj(vec![("base", J::s(format!("{} v{} {} bytes", base.origin, base.img.version, base.bytes.len()))), ("deviations", J::Arr(applied.iter().map(|a| J::s(format!("{}: {}", a.0, a.1))).collect()))]));
         }
     }
+    let _ = std::fs::remove_dir_all(format!("{}.files", ctx.out));
 }
